@@ -215,6 +215,8 @@ def run_property(pid, tier):
     specs = cfg[tier] if tier in cfg else cfg['quick']
     if callable(specs):
         specs = specs(seed)
+    if cfg.get('seeded_extra'):
+        specs = list(specs) + list(cfg['seeded_extra'](seed, tier))
     wd = workdir(pid)
     for f in glob.glob(os.path.join(wd, 'run_*.json')):
         os.remove(f)
